@@ -122,6 +122,6 @@ Proof.
   - change (0 < vz (closing_vector index (sigb Ordinary 0 (1 / 10) 2 (1, 1)) (pumpb Ordinary 1 (1, 1)) PPOff)).
     rewrite (closing_z index Ordinary Ordinary 0 (1 / 10) 2 1 (1, 1) (1, 1) PPOff ltac:(lra) ltac:(lra) I).
     apply Rmult_lt_0_compat; [apply (Kq_pos (1 / 10) 2 ltac:(lra) (range_pi _ Hth))|].
-    unfold w_z, n_p, n_s, kpp, refractive_index, index, pp_k_pp. pose proof (COS_bound (1 / 10)). lra.
+    unfold w_z, n_p, n_s, kpp, refractive_index, beam_refractive_index, index, pp_k_pp. pose proof (COS_bound (1 / 10)). lra.
   - eexists. apply (optimum_idler_some index Type2_e_eo Ordinary Ordinary 0 (1 / 10) 2 1 (1, 1) (1, 1) PPOff); lra.
 Qed.
